@@ -11,9 +11,12 @@ def l1(ctx):
 
 def graph(ctx, quick):
     if quick:
-        c.graph_leg(ctx, "Backward.tla", "backward", "Gen_Backward.cfg", {}, 0, 4, 0, "Sim_Backward.cfg", 120, 9)
+        # the spelling of the two truth values (booleans; "1"/"0"; "true"/"false"; "gold"/"silver") must not matter
+        c.graph_leg(ctx, "Backward.tla", "backward", "Gen_Backward.cfg", {}, 0, 4, 0, "Sim_Backward.cfg", 120, 9,
+                    variants=[{"enc": 1}, {"enc": 2}, {"enc": 3}], variant_walks=0)
     else:
-        c.graph_leg(ctx, "Backward.tla", "backward", "Gen_Backward_3.cfg", {}, 0, 4, 0, "Sim_Backward.cfg", 1500, 9, timeout=3000)
+        c.graph_leg(ctx, "Backward.tla", "backward", "Gen_Backward_3.cfg", {}, 0, 4, 0, "Sim_Backward.cfg", 1500, 9, timeout=3000,
+                    variants=[{"enc": 1}, {"enc": 2}, {"enc": 3}], variant_walks=0)
 
 
 def traces(ctx, n):
